@@ -315,10 +315,38 @@ impl FileStateMachine {
     /// Injects lease configuration into this state machine.
     ///
     /// Framework-internal method: called by NodeBuilder::build() during initialization.
+    /// Writes the latest snapshot's metadata next to the data files (sibling file + rename).
+    fn write_snapshot_metadata_file(
+        &self,
+        metadata: &SnapshotMetadata,
+    ) -> Result<(), Error> {
+        use prost::Message;
+        let path = self.data_dir.join("snapshot_metadata.bin");
+        let tmp = self.data_dir.join("snapshot_metadata.bin.tmp");
+        std::fs::write(&tmp, metadata.encode_to_vec())?;
+        std::fs::rename(&tmp, &path)?;
+        Ok(())
+    }
+
+    /// Restores the latest snapshot's metadata written by `write_snapshot_metadata_file`.
+    fn load_snapshot_metadata_file(&self) {
+        use prost::Message;
+        let path = self.data_dir.join("snapshot_metadata.bin");
+        if let Ok(bytes) = std::fs::read(&path) {
+            match SnapshotMetadata::decode(bytes.as_slice()) {
+                Ok(m) => *self.last_snapshot_metadata.write() = Some(m),
+                Err(e) => warn!("Ignoring unreadable snapshot metadata file: {e}"),
+            }
+        }
+    }
+
     /// Loads state machine data from disk files
     async fn load_from_disk(&self) -> Result<(), Error> {
         // Load last applied index and term from metadata file
         self.load_metadata().await?;
+
+        // Load the metadata of the latest snapshot this node created or installed
+        self.load_snapshot_metadata_file();
 
         // Load key-value data from data file
         self.load_data().await?;
@@ -1363,7 +1391,8 @@ impl StateMachine for FileStateMachine {
         &self,
         snapshot_metadata: &SnapshotMetadata,
     ) -> Result<(), Error> {
-        self.update_last_snapshot_metadata(snapshot_metadata)
+        self.update_last_snapshot_metadata(snapshot_metadata)?;
+        self.write_snapshot_metadata_file(snapshot_metadata)
     }
 
     async fn apply_snapshot_from_file(
@@ -1490,8 +1519,10 @@ impl StateMachine for FileStateMachine {
             *data = new_data;
         }
 
-        // Update metadata
+        // Update metadata (and keep it across restarts: without it the node no longer knows which
+        // snapshot it holds and can neither serve it to lagging peers nor justify its purge boundary)
         *self.last_snapshot_metadata.write() = Some(metadata.clone());
+        self.write_snapshot_metadata_file(metadata)?;
 
         if let Some(last_included) = &metadata.last_included {
             self.update_last_applied(*last_included);
@@ -1559,6 +1590,7 @@ impl StateMachine for FileStateMachine {
         };
 
         self.update_last_snapshot_metadata(&metadata)?;
+        self.write_snapshot_metadata_file(&metadata)?;
 
         info!("Snapshot generated at {:?}", snapshot_path);
 
